@@ -27,28 +27,37 @@ Theorem C40_engine_gets_exactly_accepted :
 Proof. exact engine_gets_accepted. Qed.
 Print Assumptions C40_engine_gets_exactly_accepted.
 
-(** (2) accepted_stored_rejected_not.  FULL statement: for every batch, content after =
-    content before (+) the fields of exactly the accepted points, in cache and WAL.  REFUTED
-    when an accepted point carries a field named time (below).  Proved for every batch without
-    a field named time, on any store whose cached value types agree with the schema (an
-    invariant the theorem re-establishes, so it chains over any number of batches starting
-    from the empty shard): no engine error, cache and WAL are exactly the previous content
-    plus every field of every accepted point and nothing of a rejected one. *)
-Theorem C40_accepted_stored_rejected_not_partial :
+(** (2) accepted_stored_rejected_not, FULL statement: for every history of batches from the
+    empty shard and every further batch (any mix of rejection reasons, also fields named time):
+    the engine reports no conflict; cache and WAL afterwards are exactly the previous content
+    plus the non-time fields of exactly the accepted points — nothing of a rejected point and
+    nothing of a field named time is stored. *)
+Theorem C40_accepted_stored_rejected_not :
+  forall vk bs batch e' err dr,
+    write_points vk (run_batches vk estate0 bs) batch = (e', err, dr) ->
+    let e := run_batches vk estate0 bs in
+    let acc := accepted vk (e_schema e') batch in
+    err <> 2%N /\ e_cache e' = spec_store (e_cache e) acc /\ e_wal e' = spec_store (e_wal e) acc.
+Proof. exact accepted_stored_history. Qed.
+Print Assumptions C40_accepted_stored_rejected_not.
+
+(** The one-step form on any store whose cached value types agree with the schema (the
+    invariant is re-established). *)
+Theorem C40_accepted_stored_step :
   forall vk e batch e' err dr, write_points vk e batch = (e', err, dr) ->
-    no_time_field batch -> store_typed (e_schema e) (e_cache e) ->
+    store_typed (e_schema e) (e_cache e) ->
     let acc := accepted vk (e_schema e') batch in
     err <> 2%N /\
     e_cache e' = spec_store (e_cache e) acc /\ e_wal e' = spec_store (e_wal e) acc /\
     store_typed (e_schema e') (e_cache e').
 Proof. exact accepted_stored. Qed.
-Print Assumptions C40_accepted_stored_rejected_not_partial.
+Print Assumptions C40_accepted_stored_step.
 
-(** REFUTED in general (candidate F13, confirmed on the real code, findings.d/C40.json):
-    a point [m0,s=0 a=1.5,time=7i] is accepted with a PartialWriteError{Dropped:0} saying the
-    field time "has been stripped", yet the engine stores the value under m0,s=0#!~#time; a
-    later batch carrying time with another type then fails as a whole with a NON-partial error,
-    its other accepted point stays readable from the cache but is not in the WAL. *)
+(** Former finding time-field-written (DESIGN candidate F13), repaired in
+    Engine.WritePoints (a field named time is skipped): the former counterexamples are now
+    positive examples.  [m0,s=0 a=1.5,time=7i] is accepted with PartialWriteError{Dropped:0}
+    and nothing is stored under m0,s=0#!~#time; a later batch carrying time with another type
+    is an ordinary (partial, Dropped 0) success and its points are durable. *)
 Definition nm0 : name := [109; 48]%N.
 Definition nfa : name := [97]%N.
 Definition mkp (s : N) (t : Z) (fs : list pfield) : bpoint :=
@@ -57,23 +66,20 @@ Definition fld (k : name) (ty : N) (v : Z) : pfield := {| f_key := k; f_type := 
 Definition wit1 : list bpoint := [mkp 0 1 [fld nfa 1 1; fld TIME 2 7]].
 Definition wit2 : list bpoint := [mkp 0 2 [fld nfa 1 2; fld TIME 1 8]; mkp 1 2 [fld nfa 1 3]].
 
-Theorem C40_accepted_stored_refuted_time_field :
-  exists vk e batch, let '(e', err, dr) := write_points vk e batch in
-    err = 1%N /\ dr = 0%N /\ accepted vk (e_schema e') batch = batch /\
-    slookup (nm0, 0%N, TIME) (e_cache e') = Some (2%N, [(1%Z, 7%Z)]) /\
-    slookup (nm0, 0%N, TIME) (spec_store (e_cache e) (accepted vk (e_schema e') batch)) = None.
-Proof. exists false, estate0, wit1. vm_compute. repeat split. Qed.
-Print Assumptions C40_accepted_stored_refuted_time_field.
+Example C40_time_field_not_stored :
+  let '(e', err, dr) := write_points false estate0 wit1 in
+    err = 1%N /\ dr = 0%N /\ accepted false (e_schema e') wit1 = wit1 /\
+    slookup (nm0, 0%N, TIME) (e_cache e') = None /\
+    slookup (nm0, 0%N, nfa) (e_cache e') = Some (1%N, [(1%Z, 1%Z)]).
+Proof. vm_compute. repeat split. Qed.
 
-Theorem C40_accepted_stored_refuted_hard_error :
-  exists vk e batch, let '(e', err, dr) := write_points vk e batch in
-    err = 2%N /\ length (accepted vk (e_schema e') batch) = 2 /\
+Example C40_time_field_other_type_is_harmless :
+  let e1 := fst (fst (write_points false estate0 wit1)) in
+  let '(e', err, dr) := write_points false e1 wit2 in
+    err = 1%N /\ dr = 0%N /\
     slookup (nm0, 1%N, nfa) (e_cache e') = Some (1%N, [(2%Z, 3%Z)]) /\
-    slookup (nm0, 1%N, nfa) (e_cache (reopen e')) = None.
-Proof.
-  exists false, (fst (fst (write_points false estate0 wit1))), wit2. vm_compute. repeat split.
-Qed.
-Print Assumptions C40_accepted_stored_refuted_hard_error.
+    slookup (nm0, 1%N, nfa) (e_cache (reopen e')) = Some (1%N, [(2%Z, 3%Z)]).
+Proof. vm_compute. repeat split. Qed.
 
 (** (3) schema side effect, documented: a point rejected at its second field has created its
     first field; a later point with another type for that field is rejected because of it. *)
